@@ -329,8 +329,8 @@ Definition model_geo_sort (szs : list Z) (es : list entry) : res :=
 (* GenomicIntervalsFull.clip.  At HEAD only one side of each end is clamped (an interval lying entirely beyond the
    chromosome end comes out inverted); notes/C10.fix-4.diff clamps both like arithmetics.clip / Geometry.clip.
    Switch for fix-4: replace the two bodies by  Z.min (Z.max 0 s) size  and  Z.max (Z.min size t) 0 . *)
-Definition m_clip_start (size s : Z) : Z := Z.max 0 s.
-Definition m_clip_stop (size t : Z) : Z := Z.min size t.
+Definition m_clip_start (size s : Z) : Z := Z.min (Z.max 0 s) size.
+Definition m_clip_stop (size t : Z) : Z := Z.max (Z.min size t) 0.
 Definition model_clip (szs : list Z) (es : list entry) : list entry :=
   map (fun e => set_se e (m_clip_start (size_of szs (e_chr e)) (e_start e)) (m_clip_stop (size_of szs (e_chr e)) (e_stop e))) es.
 Definition model_extend (szs : list Z) (n : Z) (es : list entry) : list entry :=
